@@ -326,6 +326,18 @@ pub fn property() -> Property {
         id: "C10",
         subs: vec![
             Sub {
+                name: "fuzz_corpus_replay",
+                about: "every committed corpus input and saved artifact of the libFuzzer target fz_arith - one application of + - * / % min max whose operands are written by the fuzzer as text lines (a line that parses as JSON is that value, any other line is a raw string such as ` 0x1F ` or `12px`; operands literal or through var) - replayed through the target's own body against the reference model; the committed corpus is the coverage-distinct set distilled from campaigns on the unchanged tree, so each input reaches a different piece of the implementation. The thorough tier additionally runs the coverage-guided campaign.",
+                nontrivial: "the decoded rule is evaluated and the model determines the outcome.",
+                strategy: None,
+                fixed: Some(|| fuzz_corpus_cases("fz_arith")),
+                fixed_exhaustive: false,
+                check: check_fuzz_case,
+                quick: 0,
+                thorough: 0,
+                small_stack: false,
+            },
+            Sub {
                 name: "per_element",
                 about: "this property's operators inside an expression used as the body of map / filter / all / some / none over 2-5 different elements: element by element the outcome must be what the expression gives on that element alone (model-free per-element law); catches anything the shared evaluation machinery remembers from one element to the next.",
                 nontrivial: "the expression gives different results on different elements.",
